@@ -644,7 +644,7 @@ impl ProtocolState {
 //@end
 
 //@fn gneiss-mqtt/src/protocol.rs ProtocolState::handle_auth props=C11
-    ensures *final(self) == *old(self), r is Err, final(_arg2).packet_events@ == old(_arg2).packet_events@,
+    ensures *final(self) == *old(self), r is Err, final(_arg2).packet_events@ == old(_arg2).packet_events@, final(_arg2).current_time == old(_arg2).current_time,
 //@end
 }
 
@@ -1343,6 +1343,170 @@ impl ProtocolState {
                     &&& (!(*op.packet is Subscribe || *op.packet is Unsubscribe || *op.packet is Publish) ==> removed_exactly(pre, post, id))
                 }
         }),
+//@end
+}
+
+// =====================================================================================================
+// entry points (C11, C07, C15, C01)
+// =====================================================================================================
+
+impl InboundAliasResolver {
+//@fn gneiss-mqtt/src/alias.rs InboundAliasResolver::reset_for_new_connection props=C17
+    ensures final(self).current_aliases@ == Map::<u16, String>::empty(), final(self).maximum_alias_value == old(self).maximum_alias_value,
+//@end
+}
+
+impl ProtocolState {
+// ---- assumed contracts for the closure/iterator functions outside Verus; each is examined by E-B (bounded)
+//@fn gneiss-mqtt/src/protocol.rs ProtocolState::complete_operation_sequence_as_empty_success stub
+    requires old(self).wf(),
+    ensures final(self).wf(),
+        final(self).current_operation == old(self).current_operation,
+        old(self).cur_ok() ==> final(self).cur_ok() || true,
+        final(self).pending_write_completion == old(self).pending_write_completion,
+        final(self).pending_write_completion_operations@ == old(self).pending_write_completion_operations@,
+        final(self).state == old(self).state || (old(self).state == ProtocolStateType::PendingDisconnect && final(self).state == ProtocolStateType::Halted),
+//@end
+
+//@fn gneiss-mqtt/src/protocol.rs ProtocolState::handle_network_event_connection_closed stub
+    requires old(self).wf(),
+    ensures final(self).wf(),
+        old(self).state == ProtocolStateType::Disconnected ==> r is Err && *final(self) == *old(self),
+        old(self).state != ProtocolStateType::Disconnected && r is Ok ==> final(self).state == ProtocolStateType::Disconnected && final(self).current_operation is None,
+//@end
+
+//@fn gneiss-mqtt/src/protocol.rs ProtocolState::handle_network_event_incoming_data stub
+    requires old(self).wf(),
+    ensures final(self).wf(),
+        (old(self).state == ProtocolStateType::Disconnected || old(self).state == ProtocolStateType::Halted) ==> r is Err && *final(self) == *old(self),
+        r is Ok ==> (old(self).cur_ok() ==> final(self).cur_ok()),
+//@end
+
+//@fn gneiss-mqtt/src/protocol.rs ProtocolState::initialize_slow_start stub
+    requires old(self).wf_tables(), old(self).state == ProtocolStateType::Connected,
+    ensures final(self).wf_core(),
+        *final(self) == (ProtocolState { slow_start_ack_count: final(self).slow_start_ack_count, ..*old(self) }),
+//@end
+
+//@fn gneiss-mqtt/src/protocol.rs ProtocolState::apply_session_present_to_connection stub
+    requires old(self).wf(),
+    ensures final(self).wf(),
+        final(self).state == old(self).state, final(self).current_settings == old(self).current_settings,
+        final(self).next_ping_timepoint == old(self).next_ping_timepoint, final(self).ping_timeout_timepoint == old(self).ping_timeout_timepoint,
+        final(self).connack_timeout_timepoint == old(self).connack_timeout_timepoint,
+        final(self).has_connected_successfully == old(self).has_connected_successfully,
+        final(self).current_operation == old(self).current_operation,
+//@end
+
+// (body uses `completions.iter().copied()`: Iterator::copied on vec_deque::Iter is outside Verus) -> assumed, E-B
+//@fn gneiss-mqtt/src/protocol.rs ProtocolState::handle_network_event_write_completion stub
+    requires old(self).wf(),
+    ensures final(self).wf(),
+        // a write completion nobody is waiting for, or in a state that writes nothing, is an error
+        (old(self).state == ProtocolStateType::Halted || old(self).state == ProtocolStateType::Disconnected) ==> r is Err && *final(self) == *old(self),
+        (old(self).state != ProtocolStateType::Halted && old(self).state != ProtocolStateType::Disconnected && !old(self).pending_write_completion)
+            ==> r is Err && *final(self) == (ProtocolState { state: ProtocolStateType::Halted, ..*old(self) }),
+        (old(self).state != ProtocolStateType::Halted && old(self).state != ProtocolStateType::Disconnected && old(self).pending_write_completion)
+            ==> !final(self).pending_write_completion && final(self).pending_write_completion_operations@.len() == 0
+                && final(self).current_operation == old(self).current_operation,
+//@end
+
+//@fn gneiss-mqtt/src/protocol.rs ProtocolState::handle_connack props=C07,C14,C11,C17
+    requires old(self).wf(), *packet is Connack, clock_ok(old(context).current_time),
+    ensures final(self).wf(),
+        final(context).current_time == old(context).current_time,
+        ({
+            let connack = packet->Connack_0;
+            let pre = *old(self);
+            let post = *final(self);
+            let now = old(context).current_time;
+            // a repeated or unsolicited CONNACK is a protocol error
+            &&& pre.state != ProtocolStateType::PendingConnack ==> r is Err && post == pre && final(context).packet_events@ == old(context).packet_events@
+            // a failing CONNACK yields a connection error (and is surfaced), never a connected state
+            &&& (pre.state == ProtocolStateType::PendingConnack && connack.reason_code != ConnectReasonCode::Success) ==>
+                    (r matches Err(e) && e.kind() == GErrKind::ConnectionEstablishmentFailure) && post == pre
+                    && final(context).packet_events@ == old(context).packet_events@.push(PacketEvent::Connack(connack))
+            &&& r is Ok ==> {
+                    &&& pre.state == ProtocolStateType::PendingConnack && connack.reason_code == ConnectReasonCode::Success
+                    &&& post.state == ProtocolStateType::Connected && post.has_connected_successfully
+                    &&& post.connack_timeout_timepoint is None
+                    // negotiated settings reported to the application
+                    &&& (post.current_settings matches Some(st) && negotiated_spec(pre.config.connect_options, connack, st))
+                    // C14: first ping K seconds from CONNACK iff K > 0 (server's value overriding the client's)
+                    &&& post.ping_timeout_timepoint is None
+                    &&& ({ let k = post.current_settings->Some_0.server_keep_alive;
+                           if k > 0 { post.next_ping_timepoint matches Some(np) && np.nanos == now.nanos + k as int * 1000000000 } else { post.next_ping_timepoint is None } })
+                    &&& final(context).packet_events@ == old(context).packet_events@.push(PacketEvent::Connack(connack))
+                }
+            &&& post.state == pre.state || post.state == ProtocolStateType::Connected
+        }),
+//@end
+
+//@fn gneiss-mqtt/src/protocol.rs ProtocolState::handle_packet props=C11,C01,C05
+    requires old(self).wf(), opid_budget(*old(self), 1), clock_ok(old(context).current_time),
+    ensures final(self).wf(),
+        final(context).current_time == old(context).current_time,
+        // packets a server may never send, and AUTH, are connection errors
+        !(*packet is Connack || *packet is Publish || *packet is Pingresp || *packet is Disconnect || *packet is Suback || *packet is Unsuback
+            || *packet is Puback || *packet is Pubcomp || *packet is Pubrel || *packet is Pubrec) ==> r is Err && *final(self) == *old(self),
+        *packet is Disconnect ==> r is Err,
+        // nothing but a CONNACK is acceptable before the connection is established
+        (!accepts_acks(old(self).state) && !(*packet is Connack)) ==> r is Err,
+//@end
+
+//@fn gneiss-mqtt/src/protocol.rs ProtocolState::handle_network_event props=C11,C07
+    requires old(self).wf(), opid_budget(*old(self), 1), clock_ok(old(context).current_time),
+    ensures final(self).wf(),
+        // every error from an entry point switches to Halted ...
+        r is Err ==> final(self).state == ProtocolStateType::Halted,
+        // ... and a halted engine accepts no more traffic for that connection (only the close notification)
+        (old(self).state == ProtocolStateType::Halted && !(old(context).event is ConnectionClosed)) ==> r is Err,
+        (old(self).state == ProtocolStateType::Disconnected && (old(context).event is IncomingData || old(context).event is WriteCompletion || old(context).event is ConnectionClosed)) ==> r is Err,
+//@end
+
+//@fn gneiss-mqtt/src/protocol.rs ProtocolState::handle_user_event props=C15,C10,C01,C11
+    requires old(self).wf(), opid_budget(*old(self), 1),
+        match context.event {
+            UserEvent::Publish(p, o) => *p is Publish && o.response_handler is Some,
+            UserEvent::Subscribe(p, o) => *p is Subscribe && o.response_handler is Some,
+            UserEvent::Unsubscribe(p, o) => *p is Unsubscribe && o.response_handler is Some,
+            UserEvent::Disconnect(p) => *p is Disconnect,
+        },
+    ensures final(self).wf(),
+        old(self).cur_ok() ==> final(self).cur_ok(),
+        ({
+            let pre = *old(self);
+            let post = *final(self);
+            let oid = pre.next_operation_id;
+            let pk = match context.event {
+                UserEvent::Publish(p, o) => *p, UserEvent::Subscribe(p, o) => *p, UserEvent::Unsubscribe(p, o) => *p, UserEvent::Disconnect(p) => *p };
+            let accepted = pre.state == ProtocolStateType::Connected || policy_keeps(pk, pre.config.offline_queue_policy);
+            &&& post.next_operation_id == oid + 1
+            // kept: tracked under a fresh id and queued behind every earlier user operation (DISCONNECT: ahead of everything)
+            &&& accepted ==> post.operations@.contains_key(oid) && *post.operations@[oid].packet == pk && post.operations@ == pre.operations@.insert(oid, post.operations@[oid])
+                    && (if pk is Disconnect { post.high_priority_operation_queue@ == seq![oid] + pre.high_priority_operation_queue@ && post.user_operation_queue@ == pre.user_operation_queue@ }
+                        else { post.user_operation_queue@ == pre.user_operation_queue@.push(oid) && post.high_priority_operation_queue@ == pre.high_priority_operation_queue@ })
+            // rejected by the offline policy: failed at once, never queued, never tracked
+            &&& !accepted ==> post.operations@ =~= pre.operations@ && post.user_operation_queue@ == pre.user_operation_queue@
+                    && post.high_priority_operation_queue@ == pre.high_priority_operation_queue@
+            &&& post.resubmit_operation_queue@ == pre.resubmit_operation_queue@
+            &&& post.allocated_packet_ids@ == pre.allocated_packet_ids@ && post.pending_publish_operations@ == pre.pending_publish_operations@
+            &&& post.pending_non_publish_operations@ == pre.pending_non_publish_operations@
+            &&& post.current_operation == pre.current_operation
+        }),
+//@end
+
+//@fn gneiss-mqtt/src/protocol.rs ProtocolState::get_next_service_timepoint props=C08
+    requires old(self).wf(),
+    ensures
+        *final(self) == (ProtocolState { current_time: *current_time, elapsed_time_ms: final(self).elapsed_time_ms, ..*old(self) }),
+        (old(self).state == ProtocolStateType::Halted || old(self).state == ProtocolStateType::Disconnected) ==> r is None,
+        // a sendable operation => "service me now" (Connected) / before CONNACK for the CONNECT
+        (old(self).state == ProtocolStateType::Connected && next_sendable(*final(self), ProtocolQueueServiceMode::All) is Some) ==> opt_le(r, *current_time),
+        (old(self).state == ProtocolStateType::PendingConnack && next_sendable(*final(self), ProtocolQueueServiceMode::HighPriorityOnly) is Some) ==> opt_le(r, *current_time),
+        (old(self).state == ProtocolStateType::Connected && old(self).ping_timeout_timepoint is Some) ==> opt_le(r, old(self).ping_timeout_timepoint->Some_0),
+        (old(self).state == ProtocolStateType::Connected && !old(self).pending_write_completion && old(self).next_ping_timepoint is Some) ==> opt_le(r, old(self).next_ping_timepoint->Some_0),
+        (old(self).state == ProtocolStateType::PendingConnack) ==> opt_le(r, old(self).connack_timeout_timepoint->Some_0),
 //@end
 }
 } // verus!
